@@ -107,6 +107,9 @@ func buildISOWith(t *treeSpec, opts iso9660.FinalizeOptions, blocksize, start in
 // dirtyRange fills [lo,hi) with non-zero junk (not logged, not monitored): the range a filesystem is given held something
 // else before - an older image, another filesystem. Whatever the new image needs to be zero it has to write itself.
 func dirtyRange(d *memdev.Dev, lo, hi int64) {
+	if os.Getenv("VERIF_NO_DIRTY") != "" {
+		return // diagnosis only: lets a replay tell whether a finding depends on what the range held before
+	}
 	if hi-lo > 48<<20 {
 		hi = lo + 48<<20
 	}
